@@ -65,6 +65,13 @@ pub fn run(rng: &mut Rng, n: usize, rep: &mut Report) {
                     if da != 0 || dl != 0 {
                         rep.fail(format!("close_balance changed bank totals; hist {:?}", hist));
                     }
+                    // the abandoned remainder must be dust: worth less than ZERO_AMOUNT_THRESHOLD (0.0001 native units)
+                    let thr: i128 = fixed::types::I80F48::from_num(0.0001).to_bits();
+                    let va = (num_bigint::BigInt::from(x.a) * num_bigint::BigInt::from(bank.asv)) >> 48u32;
+                    let vl = (num_bigint::BigInt::from(x.l) * num_bigint::BigInt::from(bank.lsv)) >> 48u32;
+                    if va >= num_bigint::BigInt::from(thr) || vl >= num_bigint::BigInt::from(thr) {
+                        rep.fail(format!("close_balance abandoned more than dust: asset value bits {} liability value bits {} (threshold {}); shares a={} l={}; hist {:?}", va, vl, thr, x.a, x.l, hist));
+                    }
                     dust_a += x.a;
                     dust_l += x.l;
                 }
